@@ -461,7 +461,7 @@ func (e *ssmEnv) reopen(forced bool) error {
 	if forced {
 		e.emit("forcerestore", "ok")
 	}
-	if err := e.s.Open(); err != nil {
+	if err := e.openRetry(); err != nil {
 		return err
 	}
 	e.waitReady()
@@ -535,4 +535,54 @@ func ssmRng(salt uint64) *vfRng {
 	r := vfNewRng(salt)
 	r.s = r.U64()*0x2545F4914F6CDD1D + salt
 	return r
+}
+
+// ssmReaperRace recognises a Store.Open that was refused only because the snapshot store's
+// background reaper held its write lock at that instant (raft's List/Open of snapshots use the
+// non-blocking read lock): a transient start-up failure, not a statement about any property.
+func ssmReaperRace(err error) bool {
+	if err == nil {
+		return false
+	}
+	m := err.Error()
+	return strings.Contains(m, "MSRW conflict") || strings.Contains(m, "failed to load any existing snapshots") ||
+		strings.Contains(m, "acquiring read lock")
+}
+
+// ssmAbandon releases what a failed Open left behind (the Bolt file lock above all), so that a
+// new Store object can be opened on the same directory.
+func ssmAbandon(s *Store) {
+	if s.raft != nil {
+		s.raft.Shutdown().Error()
+	}
+	if s.raftTn != nil {
+		s.raftTn.Close()
+	}
+	if s.db != nil {
+		s.db.Close()
+	}
+	if s.boltStore != nil {
+		s.boltStore.Close()
+	}
+	if s.snapshotStore != nil {
+		s.snapshotStore.Close()
+	}
+}
+
+// openRetry opens e.s; a start refused by the reaper race is counted, noted and retried (a few
+// times, on a fresh Store object). Any other error, or the race persisting, is returned.
+func (e *ssmEnv) openRetry() error {
+	var err error
+	for attempt := 0; attempt < 6; attempt++ {
+		if err = e.s.Open(); err == nil || !ssmReaperRace(err) {
+			return err
+		}
+		e.rep.Count("open-refused-by-concurrent-reap-then-retried")
+		e.rep.Note("transient Store.Open failure (snapshot-store reaper held the write lock), retry %d: %v", attempt+1, err)
+		ssmAbandon(e.s)
+		e.ln.Close()
+		time.Sleep(time.Duration(200*(attempt+1)) * time.Millisecond)
+		e.newStore()
+	}
+	return err
 }
